@@ -2,7 +2,7 @@
    tree into arguments of a model function and encodes the result.  Function numbers
    are read by tools/harness/model.py from the "FN <n> <name>" comments below. *)
 From P7 Require Import Prelude PyPrims Number Crc32 Header HeaderCodec.
-From P7 Require Path ExtractFS Assign Select RSession WSession Par Events Trace Cli Mode Mem Enc Toy Damage Cost Listing.
+From P7 Require Path ExtractFS Assign Select RSession WSession Par Events Trace Cli Mode Mem Enc Toy Damage Cost Listing Append.
 Open Scope Z_scope.
 
 Definition t_optpair {A} (f : A -> tree) (o : option (A * bytes)) : tree :=
@@ -45,4 +45,5 @@ Definition dispatch (fn : Z) (a : tree) : tree :=
   else if fn <? 420 then Damage.damage_dispatch fn a
   else if fn <? 440 then Cost.cost_dispatch fn a
   else if fn <? 460 then Listing.listing_dispatch fn a
+  else if fn <? 480 then Append.append_dispatch fn a
   else TL [TI (-2)].
